@@ -20,6 +20,8 @@ func main() {
 		runC02(ev.Parse("model_checking"))
 	case "C03":
 		runC03(ev.Parse("model_checking"))
+	case "C04":
+		runC04(ev.Parse("model_checking"))
 	default:
 		fmt.Println("kvmc: unknown property", os.Args[1])
 		os.Exit(2)
